@@ -1,7 +1,7 @@
 """Scenario generators, third group: histories and the fringe of the input space (C12, C14, C17, C20)."""
 import numpy as np
 
-from build import BOOL, DICT, DT, EN, F, I, L, NOJ, R, S, SETUP, Prog
+from build import BOOL, DICT, DT, EN, F, I, L, NOJ, R, S, SETUP, TUP, Prog
 from objgen import ORDER, add_all_classes, ident, make_kwargs, text, value_for
 from objmodel import CLASSES
 from scen import DTYPES, rand_array, rand_name, rng_for, simple_file
@@ -133,18 +133,29 @@ def gen_C12(tier, seed):
             p.write(1, valid=False, mustraise='intrange')
             progs.append(p.build())
         # a list for a single-valued attribute
-        for cls, kw_ in [('origin', {'file_type': L(S('a'), S('b'))}), ('zone', {'description': L(S('x'), S('y'))}),
-                         ('equipment', {'serial_number': L(S('S1'), S('S2'))})]:
-            p = fringe(f'listscalar-{cls}-{r_}', 'listscalar')
+        several = [('origin', {'file_type': L(S('a'), S('b'))}), ('zone', {'description': L(S('x'), S('y'))}),
+                   ('equipment', {'serial_number': L(S('S1'), S('S2'))})]
+        # ... also as a tuple, and for the attributes whose values pass no type-checking converter
+        for cls, attr in [('origin', 'file_type'), ('origin', 'file_set_name'), ('origin', 'name_space_name'), ('origin', 'well_name'),
+                          ('frame', 'direction'), ('no_format', 'consumer_name'), ('calibration', 'method'),
+                          ('message', 'message_type'), ('zone', 'description'), ('equipment', 'serial_number'),
+                          ('calibration_coefficient', 'label'), ('axis', 'axis_id')]:
+            several.append((cls, {attr: TUP(S('A'), S('B'))}))
+            if r_ == 0:
+                several.append((cls, {attr: TUP(S('A'), S('B'), S('C'))}))
+                several.append((cls, {attr: L(S('A'), S('B'))}))
+        for j, (cls, kw_) in enumerate(several):
+            p = fringe(f'listscalar-{cls}-{j}-{r_}', 'listscalar')
             p.file(1)
             lf = p.lf(1, fh_id='HDR')
             if cls == 'origin':
                 p.origin(lf, name='O', company=S('ACME'), **kw_)
             else:
                 p.origin(lf, name='O', company=S('ACME'))
-                p.add(lf, cls, 'OBJ', **kw_)
+                if cls != 'frame':
+                    p.add(lf, cls, 'OBJ', **kw_)
             c = p.channel(lf, 'CH', data=np.arange(3, dtype='float64'))
-            p.frame(lf, 'FR', [c])
+            p.frame(lf, 'FR', [c], **(kw_ if cls == 'frame' else {}))
             p.write(1, valid=False, mustraise='listscalar')
             progs.append(p.build())
         # no origin / channels / frames
@@ -325,6 +336,35 @@ def gen_C14(tier, seed):
                 kw2f[k_] = kw2[k_]
         p.write(101, route='dict', fname='fresh.dlis', **kw2f)
         p.meta['what'] = what
+        progs.append(p.build())
+    # frame index metadata derived at an earlier write (a NaN in the index; bounds the user then pins to the very values
+    # derived before): the next file is the one a fresh process writes
+    for i in range(8 if tier == 'quick' else 48):
+        p = Prog(f'C14-indexhist-{i}', {'kind': 'indexhist'})
+        full = np.array([1000, 1001, 1002, 1003, 1004, 1005], dtype='float64')
+        first = full if i % 2 else np.array([1.0, float('nan'), 3.0, 4.0, 5.0, 6.0])
+        second = np.array([20, 21, 22, 23, 24, 25], dtype='float64') if i % 2 == 0 else full
+        other = rand_array(rng, 'int16', 6)
+        kw2 = {'from': 2, 'to': 5} if i % 2 else {}
+        for fid in (1, 101):
+            if fid == 101:
+                p.next_proc(fresh=True)
+            p.file(fid, vrl=256)
+            lf = p.lf(fid, lf=fid, fh_id='INDEXED')
+            p.origin(lf, name='ORIGIN')
+            idx = p.channel(lf, 'INDEX')
+            oth = p.channel(lf, 'OTHER')
+            fr = p.frame(lf, 'FR', [idx, oth], index_type=EN('FrameIndexType', 'BOREHOLE_DEPTH'))
+            if fid == 1:
+                p.write(fid, route='dict', data_arrays={idx: p.array(first), oth: p.array(other)}, fname='w1.dlis')
+                if i % 4 >= 2:
+                    p.write(fid, route='dict', data_arrays={idx: p.array(first), oth: p.array(other)}, fname='w1b.dlis', **{'from': 1, 'to': 4})
+            if i % 2:
+                p.set(fr, 'index_min', F(1000.0))
+                p.set(fr, 'index_max', F(1005.0))
+                if i % 4 == 1:
+                    p.set(fr, 'spacing', F(1.0))
+            p.write(fid, route='dict', data_arrays={idx: p.array(second), oth: p.array(other)}, fname=('w2.dlis' if fid == 1 else 'fresh.dlis'), **kw2)
         progs.append(p.build())
     return progs
 
